@@ -53,6 +53,12 @@ def run_translator(parts=('consts',)):
         if r.returncode != 0:
             raise Broken('translator', 'tools/gen_ast.py failed (construct outside the translated Rust subset?)', r.stdout[-3000:])
         out += '\n' + r.stdout.strip()
+        # witness inputs for the non-vanishing theorems (C16): one point per program where every term is non-zero; the generator
+        # only PROPOSES (untrusted Python evaluator), the Lean kernel re-checks; it fails when some term is zero at 16 random points
+        r = sh([sys.executable, os.path.join(ROOT, 'tools', 'gen_witness.py')])
+        if r.returncode != 0:
+            raise Broken('translator', 'tools/gen_witness.py: no non-vanishing witness (a coefficient position whose term is identically zero?)', r.stdout[-3000:])
+        out += '\n' + r.stdout.strip()
     return out
 
 
